@@ -92,12 +92,15 @@ def build_project(cases, subscriptions=False):
         k = f"{kind}_{WIDX[w]}"
         sdl.append(f"input FIn_{k} {{ a: {t} pad: Int }}")
         sdl.append(f"input NOut_{k} {{ inner: FIn_{k} pad: Int }}")
+        sdl.append(f"input Rec_{k} {{ a: {t} next: Rec_{k} pad: Int }}")
         qfields.append(f"  echoV_{k}(a: {t}): Boolean")
         qfields.append(f"  echoF_{k}(i: FIn_{k}): Boolean")
         qfields.append(f"  echoN_{k}(o: NOut_{k}): Boolean")
+        qfields.append(f"  echoRc_{k}(r: Rec_{k}): Boolean")
         ops.append(f"query OpV_{k}($a: {t}) {{ echoV_{k}(a: $a) }}")
         ops.append(f"query OpF_{k}($i: FIn_{k}) {{ echoF_{k}(i: $i) }}")
         ops.append(f"query OpN_{k}($o: NOut_{k}) {{ echoN_{k}(o: $o) }}")
+        ops.append(f"query OpRc_{k}($r: Rec_{k}) {{ echoRc_{k}(r: $r) }}")
         if (kind, w) in DEFAULTS and any(c.get("dflt") for c in cases):
             lit = DEFAULTS[(kind, w)][0]
             ops.append(f"query OpVD_{k}($a: {t} = {lit}) {{ echoV_{k}(a: $a) }}")
